@@ -424,7 +424,12 @@ func gen(t *rapid.T) Case {
 	c.DryFirst = rapid.IntRange(0, 4).Draw(t, "dryfirst") == 4
 	if c.DryFirst && !c.Forced {
 		// a reason to run that leaves no trace in the records: a generated file is gone
-		c.Edits = append(c.Edits, projsim.Op{Kind: "gen-del", T: rapid.IntRange(0, 11).Draw(t, "gendel")})
+		gd := projsim.Op{Kind: "gen-del", T: rapid.IntRange(0, 11).Draw(t, "gendel")}
+		if rapid.Bool().Draw(t, "onlygendel") {
+			c.Edits = []projsim.Op{gd} // nothing else changed: the old records still match
+		} else {
+			c.Edits = append(c.Edits, gd)
+		}
 	}
 	if c.Forced && rapid.Bool().Draw(t, "noedits") {
 		c.Edits = nil // a forced build of an unchanged tree: the option is the only reason to run
